@@ -462,8 +462,12 @@ def md_intent(cur, m, d, under_directive):
 
 def g_md_directive(ctx, rng, years):
     txs = []
-    for y in years:
-        style = rng.randrange(3)
+    # the clock's own year comes first (the directive meets today's date) and once more after a
+    # closed `apply year` block of another year (the directive meets the restored clock)
+    years = [NOW[0]] + [y for y in years if y != NOW[0]]
+    years = years[:2] + [NOW[0]] + years[2:]
+    for bi, y in enumerate(years):
+        style = 2 if bi == 1 else rng.randrange(3)
         pre = [['Y %d' % y], ['year %d' % y], ['apply year %d' % y]][style]
         first = True
         for m in range(0, 14):
@@ -484,6 +488,64 @@ def g_md_directive(ctx, rng, years):
             txs.append(Tx(DS(spell(y, 1, 1), ('date', (y, 1, 1)), 'ymd/zeros'), cur=(y, 12, 31)))
             txs.append(Tx(DS(spell(y, 1, 2), ('date', (y, 1, 2)), 'ymd/zeros'), pre=('end apply year',), cur=None))
     return [Group('md-directive', txs)]
+
+
+def g_md_epoch(ctx, rng, nows, nblocks):
+    """year directives in every form and order under several clocks: the directive names the clock's
+    own year, another year, is repeated, nested (`apply year` inside `apply year`), closed by
+    `end apply year` / `end apply` / `end`; year-less dates (also as auxiliary and posting-note dates)
+    of every month after each step.  The oracle keeps its own stack of directive years."""
+    groups = []
+    for gi, now in enumerate(nows):
+        txs = []
+        stack = []                      # (year, is_apply)
+        pending = []
+        for b in range(nblocks):
+            r = rng.random()
+            if stack and stack[-1][1] and r < 0.3:
+                stack.pop()
+                pending.append(rng.choice(['end apply year', 'end apply', 'end']))
+            else:
+                yr = rng.choice([now[0]] * 5 + [now[0] - 1, now[0] + 1, (stack[-1][0] if stack else now[0])] + [rng.randrange(1401, 9999)])
+                yr = min(max(yr, 1401), 9998)
+                is_apply = rng.random() < 0.5
+                if b == 0:
+                    yr = now[0] if gi % 2 == 0 else yr
+                form = 'apply year %d' if is_apply else rng.choice(['Y %d', 'Y%d', 'year %d', 'Y  %d'])
+                pending.append(form % yr)
+                stack.append((yr, is_apply))
+            cy = stack[-1][0] if stack else None
+            yy = cy if cy is not None else now[0]
+            picks = []
+            for m in range(1, 13):
+                picks.append((m, rng.choice([1, 15, dim(yy, m), 28, rng.randrange(1, 29)])))
+            picks.append((2, 29))
+            picks.append((rng.choice([0, 13]), 5))
+            rng.shuffle(picks)
+            for m, d in picks[:rng.randrange(8, 15)]:
+                z = rng.random() < 0.6
+                mk = lambda mm, dd: DS(spell_md(mm, dd, rng.choice('///-.'), z or mm >= 10, z or dd >= 10),
+                                       md_intent((cy, 12, 31), mm, dd, True) if cy is not None else md_intent(now, mm, dd, False),
+                                       'md-directive' if cy is not None else 'md-now')
+                ds = mk(m, d)
+                if not ds.s[0].isdigit():
+                    continue
+                k = rng.random()
+                m2, d2 = rng.randrange(1, 13), rng.randrange(1, 29)
+                if k < 0.7:
+                    t = Tx(ds)
+                elif k < 0.8:
+                    t = Tx(ds, xa=mk(m2, d2))
+                elif k < 0.9:
+                    t = Tx(DS(spell(yy, 1, 2), ('date', (yy, 1, 2)), 'ymd/zeros'), pd=ds)
+                else:
+                    t = Tx(DS(spell(yy, 1, 2), ('date', (yy, 1, 2)), 'ymd/zeros'), pa=ds)
+                t.pre = tuple(pending)
+                t.cur = now               # replaced by the model's epoch (assign_epochs)
+                pending = []
+                txs.append(t)
+        groups.append(Group('md-epoch-%d' % gi, txs, now=now))
+    return groups
 
 
 def g_md_now(ctx, rng, nows):
@@ -825,13 +887,8 @@ CANON_RE = re.compile(r'\d{4}/\d\d/\d\d$')
 
 
 def last_pre(txs, i):
-    """the directive lines in force at transaction i (the most recent non-empty `pre`)"""
-    if txs[i].cur is None:
-        return ()
-    for j in range(i, -1, -1):
-        if txs[j].pre:
-            return tuple(p for p in txs[j].pre if not p.startswith('end'))
-    return ()
+    """the directive lines read before transaction i (its own included)"""
+    return tuple(p for j in range(i + 1) for p in txs[j].pre)
 
 
 def process_group(ctx, res, g, impl, mres, date_format_mode=False):
@@ -873,7 +930,37 @@ def process_group(ctx, res, g, impl, mres, date_format_mode=False):
             res.samples.append(dict(strings=[ds.s for _, ds in t.parts()], cur=t.cur or g.now, input_formats=list(g.extra), impl=str(ri)[:200], model=str(want)[:200]))
 
 
+DIRECTIVE_RE = re.compile(r'(?:Y|year|apply year)\s*(\d+)$')
+
+
+def assign_epochs(g):
+    """the current date at every transaction of a group that contains year directives, from the
+    model's epoch machine (Model/Dates.v run_events); replaces what the generator assumed"""
+    if not any(t.pre for t in g.txs):
+        return
+    evs = []
+    for t in g.txs:
+        for p in t.pre:
+            m = DIRECTIVE_RE.match(p)
+            if m:
+                evs.append('(y %s)' % m.group(1))
+            elif p.startswith('end'):
+                evs.append('end')
+            else:
+                raise ValueError('unknown directive line %r' % p)
+        evs.append('q')
+    out = lib.run_model('C14', ['(e x %d %d %d (%s))' % (g.now[0], g.now[1], g.now[2], ' '.join(evs))])
+    curs = [tuple(int(x) for x in c.split(',')) for c in out[0].split(' ', 1)[1].split(';')]
+    assert len(curs) == len(g.txs)
+    for t, c in zip(g.txs, curs):
+        t.cur = c
+
+
 def run_groups(ctx, res, groups):
+    lib.build_driver('C14')
+    for g in groups:
+        assign_epochs(g)
+
     def impl_of(g):
         return run_journal(ctx, g.name, g.txs, g.now, g.extra, g.outfmt, g.date_format)
 
@@ -979,6 +1066,9 @@ def run(ctx, small=False):
     groups += g_md_directive(ctx, rng, [2020, 2021, 1900, 2000, 1400, 9999] + [rng.randrange(1400, 10000) for _ in range(ctx.scale(2, 20))])
     groups += g_md_now(ctx, rng, [NOW, (2021, 1, 15), (2020, 2, 29), (2021, 12, 31), (2021, 3, 1), (1400, 1, 15), (2024, 1, 31), (2100, 2, 28), (2025, 1, 15), (2024, 2, 1), (2001, 1, 1), (2000, 1, 31), (1401, 1, 1)]
                        + [(lambda y, m: (y, m, rng.randrange(1, dim(y, m) + 1)))(rng.randrange(1401, 10000), rng.randrange(1, 13)) for _ in range(ctx.scale(2, 12))])
+    groups += g_md_epoch(ctx, rng, [NOW, (2021, 1, 15), (2020, 1, 15), (2021, 12, 31), (2024, 2, 29), (2000, 3, 1)]
+                         + [(lambda y, m: (y, m, rng.randrange(1, dim(y, m) + 1)))(rng.randrange(1402, 9998), rng.randrange(1, 13)) for _ in range(ctx.scale(4, 40))],
+                         ctx.scale(14, 30))
     groups += g_custom(ctx, rng, ctx.scale(150, 1500), 30)
     run_groups(ctx, res, groups)
     g_order(ctx, rng, res, ctx.scale(2000, 20000))
